@@ -1,2 +1,6 @@
 import Emitter.Props.C07
-#print axioms Emitter.C07.placeholder
+#print axioms Emitter.C07.ttl_positive_iff
+#print axioms Emitter.C07.stored_iff
+#print axioms Emitter.C07.replay_exact
+#print axioms Emitter.C07.last_n
+#print axioms Emitter.C07.will_fires_iff
